@@ -586,6 +586,10 @@ func (tc *typechecker) typeof(expr ast.Expression, typeExpected bool) *typeInfo 
 				panic(tc.errorf(ident, "invalid macro result type %s", ident.Name))
 			}
 		}
+		if len(in)+len(out) > maxFuncParametersCount {
+			// reflect.FuncOf panics with more parameters and results.
+			panic(tc.errorf(expr, "function parameters and results count exceeded %d", maxFuncParametersCount))
+		}
 		expr.Reflect = tc.types.FuncOf(in, out, variadic)
 		return &typeInfo{Type: expr.Reflect, Properties: propertyIsType}
 
